@@ -24,7 +24,7 @@ def spec_zeropad(t):
 def gen_cases(chk):
     rng, thorough = chk.rng, chk.tier == 'thorough'
     cases = []
-    dist = dict(s2t=0, t2s=0, pad=0, lang=0)
+    dist = dict(s2t=0, t2s=0, pad=0, lang=0, feat=0)
 
     def add(kind, *f):
         cases.append('c%d %s %s' % (len(cases), kind, ' '.join(f)))
@@ -68,6 +68,40 @@ def gen_cases(chk):
             for padc in (0x00, 0x20):
                 bs = [ord(c) for c in l] + [padc] * (4 - len(l))
                 add('lang', str(fi), '%02x%02x%02x%02x' % tuple(bs))
+    # feature ids: every id of each font's Feat table in its space-padded, zero-padded and one-off spellings, + a crafted font whose Feat
+    # table holds a space-padded id, and the zero- and the space-padded spelling of one tag side by side
+    import struct
+    from props import fontkit as K
+    fonts = ['Padauk.ttf', 'charis_r_gr.ttf', 'Scheherazadegr.ttf', 'Charis5_eursub.ttf', 'charis_fast.ttf']
+    targets = []
+    for fi, fn in enumerate(fonts):
+        data = open(os.path.join(vlib.REPO, 'tests/fonts', fn), 'rb').read()
+        targets.append((str(fi), [r[1] for r in K.feat_records(data)]))
+        if fi == 0:
+            recs = K.feat_records(data)
+            if len(recs) >= 4 and recs[0][0] and struct.unpack('>H', data[K.font_tables(data)[b'Feat'][0]:K.font_tables(data)[b'Feat'][0] + 2])[0] >= 2:
+                d = bytearray(data)
+                new = [0x78797a20, 0x61620000, 0x61622020]                       # 'xyz ', 'ab\0\0', 'ab  '
+                for (r, _, _), nid in zip(recs[1:4], new):
+                    d[r:r + 4] = struct.pack('>I', nid)
+                tmp = os.path.join(vlib.BUILD, 'fuzzfonts'); os.makedirs(tmp, exist_ok=True)
+                p = os.path.join(tmp, 'c20-featids-%s-%d.ttf' % (chk.tier, chk.seed))
+                open(p, 'wb').write(bytes(d))
+                targets.append((p, new + [recs[0][1]]))
+    for where, ids in targets:
+        tags = set()
+        for t in ids[:40] if not thorough else ids:
+            b = struct.pack('>I', t)
+            z = b.rstrip(b'\0').rstrip(b' ')
+            for padc in (b'\0', b' '):
+                tags.add(struct.unpack('>I', (z + padc * 4)[:4])[0])
+                tags.add(struct.unpack('>I', (b.rstrip(b'\0') + padc * 4)[:4])[0])
+            tags.add(t); tags.add(t | 0x20); tags.add((t & ~0xFF) | 0x20); tags.add((t & ~0xFFFF) | 0x2020)
+        for _ in range(20):
+            tags.add(rng.getrandbits(32))
+        for t in sorted(tags):
+            for u in sorted({t, spec_zeropad(t)}):
+                add('feat', where, '%08x' % u)
     return cases, dist
 
 
@@ -93,6 +127,7 @@ def run(chk):
     ndis = 0
     nontrivial = set()
     langres = {}
+    featres = {}
     for c, m, i in zip(cases, ml, il):
         f = c.split()
         cid, kind = f[0], f[1]
@@ -102,6 +137,9 @@ def run(chk):
         ires = i.split()[1:]
         if kind == 'lang':
             langres[(f[2], f[3])] = (ires, c)
+            continue
+        if kind == 'feat':
+            featres[(f[2], f[3])] = (ires, c)
             continue
         mres = (m or '').split()[1:]
         # --- direct oracle: the property restated on the implementation's observable behaviour
@@ -141,6 +179,17 @@ def run(chk):
                 chk.violation('lang-padding:%s:%s' % (fi, h), 'gr_face_featureval_for_lang differs for %s vs %s' % (h, z),
                               dict(case=c, other=other[1], got=res, got_other=other[0]))
             nontrivial.add(('lang', fi, h))
+    # ... and space- and zero-padded feature tags select the same feature
+    for (where, h), (res, c) in featres.items():
+        t = int(h, 16); z = spec_zeropad(t)
+        if res[:1] == ['ABORT']:
+            chk.violation('feat-padding:%s:%s' % (os.path.basename(where), h), 'gr_face_find_fref(%s) aborted' % h, dict(case=c, got=res)); continue
+        if z != t:
+            other = featres.get((where, '%08x' % z))
+            if other and other[0] != res:
+                chk.violation('feat-padding:%s:%s' % (os.path.basename(where), h), 'gr_face_find_fref selects %s for the tag %s and %s for its zero-padded spelling %08x' % (' '.join(res), h, ' '.join(other[0]), z),
+                              dict(case=c, other=other[1], got=res, got_other=other[0]))
+            nontrivial.add(('feat', os.path.basename(where), res[1:2] == ['none']))
     chk.cov.update(evaluations=len(cases), distinct_nontrivial=len(nontrivial), disagreements_checked=ndis,
                    rule='strings of length 0..8 over a 12-value byte alphabet (exhaustive to length %d) + random bytes, in exact-size heap '
                         'buffers and against a PROT_NONE guard page; tags on a 13^4 lattice + random; non-trivial = distinct '
